@@ -388,7 +388,7 @@ func fontWF(f *Font) bool {
 //@ loop 3 back-when [C20.path.track.vh] vhCond(cmd, prev(posX), prev(posY)) ==> posX == prev(posX) + local(dxb, 2) + local(dxc, 1) && posY == prev(posY) + local(dya, 1) + local(dyb, 2)
 //@ loop 3 back-when [C20.path.track.rr] cmd.Op == OpCurveTo && !hvCond(cmd, prev(posX), prev(posY)) && !vhCond(cmd, prev(posX), prev(posY)) ==> posX == prev(posX) + local(dxa, 2) + local(dxb, 3) + local(dxc, 2) && posY == prev(posY) + local(dya, 2) + local(dyb, 3) + local(dyc, 2)
 //@ loop 3 back-when [C20.path.close] cmd.Op == OpClosePath ==> posX == prev(posX) && posY == prev(posY) && len(buf) == prev(len(buf)) + 1 && buf[len(buf)-1] == 9
-//@ loop 3 back-when [C20.path.prefix] forall k :: 0 <= k && k < prev(len(buf)) ==> buf[k] == prev(buf[k])
+//@ loop 3 back-when [C20.path.prefix] uses(C20.num.prefix, C20.num.grow, C20.op, C20.op.prefix, C20.int.prefix, C20.int.length) forall k :: 0 <= k && k < prev(len(buf)) ==> buf[k] == prev(buf[k])
 
 //@ func (*Font).encodeCharstrings
 //@ loop 1 invariant f != nil && charStrings != nil
